@@ -6,10 +6,13 @@ the arms of `jump_abs_addr`, `get_ver_from_magic_num`, `get_magic_num_bytes` of 
 triples really passed to `write_instr` while compiling a program corpus for each target 3.7..3.11, recorded through the
 `#[cfg(erg_verif)]` hook), then re-elaborates the `decide +kernel` theorems of ErgVerif.C16.Props over them. The same
 predicates are evaluated in Python to name the offending rows when an obligation fails (the replay)."""
+import concurrent.futures
 import glob
 import hashlib
 import json
 import os
+import re
+import tempfile
 
 from vlib import core
 
@@ -35,6 +38,11 @@ ENUMS = ["CommonOpcode", "Opcode308", "Opcode309", "Opcode310", "Opcode311"]
 KINDS = {"rel1": 0, "abs1": 1, "rel2": 2, "abs2": 3, "back2": 4}
 # erg's spelling of a CPython opcode name (same number, never written); applied before the by-name comparison of C16_static
 ALIASES = {"DUP_TOP2": "DUP_TOP_TWO"}
+# per target: the CPython-3.v name the generator *means* when it writes an erg variant of another version's enum. Hand-kept from the
+# source: codegen.rs emit_if_instr says "Opcode310::POP_JUMP_IF_FALSE == Opcode311::POP_JUMP_FORWARD_IF_FALSE" and writes the 3.10
+# variant for every target (the argument is computed as a forward offset on 3.11).
+VER_ALIASES = {11: {"POP_JUMP_IF_FALSE": "POP_JUMP_FORWARD_IF_FALSE", "POP_JUMP_IF_TRUE": "POP_JUMP_FORWARD_IF_TRUE"}}
+FINDING_NI = "C16-not-implemented-opcode"
 
 
 def excluded_name(n):
@@ -121,6 +129,14 @@ def build_static(py, erg):
     L.append(f"def nNames : Nat := {len(names)}")
     L.append("/-- names outside the by-name comparison (erg's own `ERG_*` pseudo-opcodes and `NOT_IMPLEMENTED`) have ids >= this -/")
     L.append(f"def excludedFrom : Nat := {min([nid[n] for n in names if excluded_name(n)] + [len(names)])}")
+    L.append("/-- id of the variant name `NOT_IMPLEMENTED` (the class K of finding C16-not-implemented-opcode) -/")
+    L.append(f"def notImplemented : Nat := {nid.get('NOT_IMPLEMENTED', len(names))}")
+    L.append("/-- per target 3.v: erg variant name ↦ the CPython-3.v name the generator means (hand-kept in checks/c16.py from the source comments) -/")
+    L.append("def verAliases (v : Nat) : List (Nat × Nat) :=")
+    L.append("  match v with")
+    for v in sorted(VER_ALIASES):
+        L.append(f"  | {v} => " + lean_list((tup(nid[a], nid[b]) for a, b in sorted(VER_ALIASES[v].items()) if a in nid and b in nid), 8, "    "))
+    L.append("  | _ => []")
     L.append("/-- erg's spelling ↦ CPython's spelling (hand-kept in checks/c16.py: DUP_TOP2 ↦ DUP_TOP_TWO) -/")
     L.append("def aliases : List (Nat × Nat) := " + lean_list(tup(nid[a], nid[b]) for a, b in sorted(ALIASES.items()) if a in nid))
     L.append("/-- every `(enum, variant, byte)` with `Enum::try_from(byte) = Ok(variant)`, byte in 0..=255;")
@@ -166,7 +182,113 @@ def build_static(py, erg):
              lean_list((f"({v}, [{', '.join(map(str, py[v]['magic']))}])" for v in sorted(py)), 4))
     L.append("")
     L.append("end ErgVerif.Gen.C16")
-    return "\n".join(L) + "\n", names, nid
+    return "\n".join(L) + "\n", names, nid, eid
+
+
+# ------------------------------------------------------------------------------------------------ Written v (instrumented code generator)
+
+def corpus_files(tier="thorough"):
+    """quick: examples/ + the hand-kept snippets (which were extended until they reach every variant the whole corpus reaches);
+    thorough: additionally tests/should_ok/ (same table expected; a difference only re-elaborates the theorems)"""
+    fs = sorted(glob.glob(os.path.join(core.REPO, "examples", "*.er")))
+    if tier == "thorough":
+        fs += sorted(glob.glob(os.path.join(core.REPO, "tests", "should_ok", "*.er")))
+    fs = [f for f in fs if not f.endswith(".d.er")]
+    fs += sorted(glob.glob(os.path.join(core.VERIF, "corpus", "C16", "snippets", "*.er")))
+    return fs
+
+
+def dump_written(bindir, py, tier="thorough"):
+    """one harness process per target (in parallel): compile the whole corpus for that target, collect the write_instr log"""
+    files = corpus_files(tier)
+
+    def one(v):
+        bs = py[v]["magic"]
+        magic = bs[0] + 256 * bs[1]
+        rc, out, err = core.sh([os.path.join(bindir, "c16"), "written", f"{v}:{magic}"] + files, cwd=core.REPO, timeout=3000, env=core.erg_env())
+        rows, status, first = [], [], {}
+        for l in out.splitlines():
+            p = l.split("\t")
+            if p[0] == "w":
+                rows.append((p[2], p[4], int(p[3]), int(p[5])))      # enum, variant, byte, count
+                first[(p[2], int(p[3]))] = p[6] if len(p) > 6 else ""
+            elif p[0] == "file":
+                status.append((p[2], p[3]))
+        return v, rc, rows, status, err[-300:], first
+
+    with concurrent.futures.ThreadPoolExecutor(max_workers=len(TARGETS)) as ex:
+        res = list(ex.map(one, TARGETS))
+    return {v: {"rc": rc, "rows": rows, "status": status, "err": err, "first": first} for v, rc, rows, status, err, first in res}, files
+
+
+def build_written(py, nid, eid, written):
+    L = ["/- GENERATED on every run by checks/c16.py: the `(enum, variant, byte)` triples passed to `PyCodeGenerator::write_instr` while",
+         "   compiling examples/*.er, tests/should_ok/*.er and corpus/C16/snippets/*.er for each target (cfg(erg_verif) hook",
+         "   `verif_instr_log` in crates/erg_compiler/codegen.rs). Ids as in ErgVerif.Gen.C16. Never edit by hand. -/",
+         "namespace ErgVerif.Gen.C16Written", "",
+         "/-- named writes `(enum id, variant name id, byte)` for target 3.v, sorted by (id of the name meant for 3.v, byte, enum) -/",
+         "def written (v : Nat) : List (Nat × Nat × Nat) :=", "  match v with"]
+    raw = {}
+    for v in TARGETS:
+        va = VER_ALIASES.get(v, {})
+        named = sorted({(nid.get(va.get(n, n), len(nid)), b, eid[e], nid.get(n, len(nid))) for e, n, b, _ in written[v]["rows"] if e in eid})
+        L.append(f"  | {v} => " + lean_list((tup(e, n, b) for _, b, e, n in named), 8, "    "))
+        inv = {}
+        for n, b in py[v]["opmap"].items():
+            inv.setdefault(b, n)
+        raw[v] = sorted({(nid.get(inv.get(b), len(nid)), b) for e, n, b, _ in written[v]["rows"] if e not in eid})
+    L.append("  | _ => []")
+    L.append("/-- writes of a bare `u8` (the opcode chosen by `select_load_instr`/`select_store_instr`…, enum type erased): `(name id that")
+    L.append("    CPython 3.v gives this byte, byte)`; an id outside the intern table means v has no opcode with this number -/")
+    L.append("def writtenRaw (v : Nat) : List (Nat × Nat) :=")
+    L.append("  match v with")
+    for v in TARGETS:
+        L.append(f"  | {v} => " + lean_list((tup(n, b) for n, b in raw[v]), 10, "    "))
+    L.append("  | _ => []")
+    L.append("")
+    L.append("end ErgVerif.Gen.C16Written")
+    return "\n".join(L) + "\n"
+
+
+def offenders_written(py, erg, written):
+    bad = []
+    ergpairs = {(ALIASES.get(n, n), b) for _, n, b in erg["ops"]} | {(n, b) for _, n, b in erg["ops"]}
+    for v in TARGETS:
+        d = py[v]
+        jumps = set(d["hasjrel"]) | set(d["hasjabs"])
+        inv = {b: n for n, b in d["opmap"].items()}
+        prog = lambda e, b: {"program": written[v]["first"].get((e, b), ""), "target": f"3.{v}",
+                             "how": f"erg --py-command {core.PYTHONS['3.%d' % v]} compile <program>; then disassemble / run the .pyc under 3.{v}"}
+        for e, n, b, cnt in written[v]["rows"]:
+            if e in ENUMS:
+                if n == "NOT_IMPLEMENTED":
+                    continue        # class K of the recorded finding (replayed separately)
+                n = VER_ALIASES.get(v, {}).get(n, n)
+                if d["opmap"].get(n) != b:
+                    bad.append({"theorem": "C16_written", "target": f"3.{v}", "enum": e, "variant": n, "byte": b, "times_written": cnt,
+                                "cpython_number_of_that_name": d["opmap"].get(n), "cpython_name_of_that_byte": inv.get(b),
+                                "observable_with": prog(e, b), "what": f"compiling for 3.{v} the generator wrote {e}::{n} = {b}, but in CPython 3.{v} {n} is "
+                                        f"{d['opmap'].get(n)} and {b} is {inv.get(b)}"})
+            else:
+                if b not in inv or (inv[b], b) not in ergpairs:
+                    bad.append({"theorem": "C16_written_raw", "target": f"3.{v}", "byte": b, "times_written": cnt, "cpython_name_of_that_byte": inv.get(b),
+                                "observable_with": prog(e, b), "what": f"compiling for 3.{v} the generator wrote the bare byte {b}, which is {inv.get(b)} in CPython 3.{v}; no erg "
+                                        f"opcode enum has that name at that number"})
+            if (b in erg["isjump"]) != (b in jumps):
+                bad.append({"theorem": "C16_jumps", "target": f"3.{v}", "enum": e, "variant": n, "byte": b, "is_jump_op": b in erg["isjump"],
+                            "cpython_is_jump": b in jumps, "observable_with": prog(e, b),
+                            "what": f"opcode {b} ({inv.get(b)}) is written for 3.{v}; CommonOpcode::is_jump_op says {b in erg['isjump']}, "
+                                    f"dis.hasjrel/hasjabs of 3.{v} say {b in jumps}"})
+    return bad
+
+
+def static_call_sites():
+    """(enum, variant) pairs appearing literally as `write_instr(<Enum>::<VARIANT>)` / `write_instr(<VARIANT>)` in codegen.rs"""
+    src = open(os.path.join(core.REPO, "crates", "erg_compiler", "codegen.rs")).read()
+    sites = set()
+    for m in re.finditer(r"write_instr\(\s*(?:(Opcode3\d\d)::)?([A-Z][A-Z0-9_]+)\s*\)", src):
+        sites.add((m.group(1) or "CommonOpcode", m.group(2)))
+    return sites
 
 
 # ------------------------------------------------------------------------------------------------ Python mirror of the theorems
@@ -253,25 +375,66 @@ def run(ctx):
         ctx.finish()
     py = dump_interpreters()
     erg = dump_erg(bindir)
-    text, names, nid = build_static(py, erg)
+    text, names, nid, eid = build_static(py, erg)
     changed = write_if_changed(os.path.join(GEN, "C16.lean"), text)
+    written, files = dump_written(bindir, py, ctx.tier)
+    wtext = build_written(py, nid, eid, written)
+    wchanged = write_if_changed(os.path.join(GEN, "C16Written.lean"), wtext)
     gen_tables = {"Gen/C16.lean": {"sha256_16": sha(text), "rewritten": changed, "names": len(names), "erg_rows": len(erg["ops"]),
                                    "py_rows": {f"3.{v}": len(py[v]["opmap"]) for v in sorted(py)},
                                    "jump_arms": len(erg["arms"]), "vermagic_rows": len(erg["vermagic"]), "magicbytes_rows": len(erg["magicbytes"])}}
-    bad = offenders_static(py, erg)
+    gen_tables["Gen/C16Written.lean"] = {"sha256_16": sha(wtext), "rewritten": wchanged,
+                                         "rows": {f"3.{v}": len({(e, b) for e, n, b, c in written[v]["rows"]}) for v in TARGETS},
+                                         "write_instr_calls": {f"3.{v}": sum(c for e, n, b, c in written[v]["rows"]) for v in TARGETS}}
+    bad = offenders_static(py, erg) + offenders_written(py, erg, written)
+    sites = static_call_sites()
+    reached = {(e, n) for v in TARGETS for e, n, b, c in written[v]["rows"]}
+    statuses = {f"3.{v}": {k: sum(1 for _, s_ in written[v]["status"] if s_.split("(")[0] == k) for k in ("ok", "rejected", "crash")} for v in TARGETS}
+    harness_failed = [f"3.{v}: rc={written[v]['rc']} {written[v]['err']}" for v in TARGETS if written[v]["rc"] != 0 or not written[v]["rows"]]
     proof = core.proof_stage(ctx, prop, ["ErgVerif.C16.Props"])
     checker_cmd = "cd lean && lake build ErgVerif.C16.Props && lake env lean Audit/C16.lean"
     extra = {"axioms": proof["axioms"], "theorems": proof["theorems"], "examples": proof["examples"], "gen_tables": gen_tables,
              "observations": observations(py, erg), "offending_rows": bad[:50],
+             "written_corpus": {"files": len(files), "status_per_target": statuses,
+                                "crashed": sorted({f"{f_}: {s_}" for v in TARGETS for f_, s_ in written[v]["status"] if s_.startswith("crash")})[:20]},
+             "write_instr_call_site_variants": {"static": len(sites), "reached": len(sites & reached),
+                                                "not_reached": sorted(f"{e}::{n}" for e, n in sites - reached)},
+             "raw_u8_writes": {f"3.{v}": sorted(b for e, n, b, c in written[v]["rows"] if e not in ENUMS) for v in TARGETS},
              "intern_table_sha256_16": sha("\n".join(names))}
     ctx.cov["rule"] = "a table row is one evaluation; non-trivial = a row that a theorem quantifies over"
-    rows = len(erg["ops"]) + len(erg["arms"]) + len(erg["vermagic"]) + len(erg["magicbytes"]) + sum(len(py[v]["opmap"]) for v in py)
+    wrows = sum(len(written[v]["rows"]) for v in TARGETS)
+    rows = wrows + len(erg["ops"]) + len(erg["arms"]) + len(erg["vermagic"]) + len(erg["magicbytes"]) + sum(len(py[v]["opmap"]) for v in py)
     ctx.cov["evaluations"] = rows
-    ctx.cov["distinct_nontrivial"] = len(erg["ops"]) + len(erg["arms"]) + len(MAGIC_VERSIONS) + len(erg["magicbytes"])
-    ctx.cov["traces_validated_against_impl"] = len(erg["ops"]) + len(erg["arms"]) + len(erg["vermagic"]) + len(erg["magicbytes"])
+    ctx.cov["distinct_nontrivial"] = wrows + len(erg["ops"]) + len(erg["arms"]) + len(MAGIC_VERSIONS) + len(erg["magicbytes"])
+    ctx.cov["traces_validated_against_impl"] = wrows + len(erg["ops"]) + len(erg["arms"]) + len(erg["vermagic"]) + len(erg["magicbytes"])
     ctx.cov["samples"] = [{"row": f"{e}::{n} = {b}"} for e, n, b in erg["ops"][:3]] + [{"arm": list(a)} for a in erg["arms"][:2]]
     ctx.assumptions = ["interpreters: " + ", ".join(f"3.{v}.{py[v]['version'][2]}" for v in sorted(py)),
                        "names are compared as strings by the translator (interned ids); `DUP_TOP2` is read as CPython's `DUP_TOP_TWO`"]
+    # recorded finding: `<<`/`>>` make the generator write NOT_IMPLEMENTED = 255 (class K of C16_written_partial); replayed on the CLI
+    for e in ctx.known_findings():
+        if e["id"] != FINDING_NI:
+            continue
+        ni_rows = [(v, en, b) for v in TARGETS for en, n, b, c in written[v]["rows"] if n == "NOT_IMPLEMENTED"]
+        wit = os.path.join(core.VERIF, "corpus", "C16", "snippets", "shift_not_implemented.er")
+        # compile the witness in-process for 3.11 (real Compiler, same binary as the table dump) and run the .pyc under python3.11
+        run = None
+        with tempfile.TemporaryDirectory(prefix="c16_") as d:
+            pyc = os.path.join(d, "w.pyc")
+            m11 = py[11]["magic"][0] + 256 * py[11]["magic"][1]
+            rc0, out0, err0 = core.sh([os.path.join(bindir, "c16"), "pyc", f"11:{m11}", wit, pyc], cwd=d, env=core.erg_env(), timeout=300)
+            if os.path.exists(pyc):
+                rc, out, err = core.sh([core.PYTHONS["3.11"], pyc], cwd=d, env=core.erg_env(), timeout=120)
+                run = {"compile": out0.strip(), "compile_stderr_tail": err0[-200:], "rc": rc, "tail": (out + err)[-200:]}
+        extra["known_finding_replay"] = {"rows": ni_rows, "erg_run": run}
+        if ni_rows and all(b == 255 for _, _, b in ni_rows) and run and run["rc"] != 0 and "not implemented" in run["compile_stderr_tail"]:
+            ctx.print_known(e, f"compiling `print! 7 << 1` writes NOT_IMPLEMENTED = 255 for targets {sorted({v for v, _, _ in ni_rows})}; the "
+                               f"compiler prints the FeatureError, still emits the .pyc, and python3.11 dies on it (rc={run['rc']})")
+        else:
+            ctx.violation({"kind": "known-finding-not-reproduced", "finding": e["id"], "rows": ni_rows, "erg_run": run,
+                           "what": "the recorded witness no longer behaves as recorded (model of the finding and implementation disagree)"}, no_input=True)
+    if harness_failed:
+        ctx.violation({"kind": "harness-run-failed", "what": "the instrumented compile of the program corpus produced no write_instr log", "targets": harness_failed},
+                      no_input=True)
     if bad:
         ctx.violation({"kind": "table-row-violates-spec", "rows": bad[:40], "count": len(bad),
                        "what": "rows of the regenerated tables that contradict the interpreter's tables (computed by set difference)",
@@ -291,7 +454,8 @@ def replay(ctx, path):
     ok_h, hlog, bindir = core.cargo_build(["c16"])
     py = dump_interpreters()
     erg = dump_erg(bindir)
-    bad = offenders_static(py, erg)
+    written, _ = dump_written(bindir, py)
+    bad = offenders_static(py, erg) + offenders_written(py, erg, written)
     want = {json.dumps(r, sort_keys=True) for r in rp.get("rows", [])}
     still = [r for r in bad if json.dumps(r, sort_keys=True) in want] or bad
     print("still failing" if still else "no longer failing")
